@@ -240,10 +240,12 @@ def main(argv):
     if a.replay:
         r = json.load(open(a.replay))
         pid = r['property']
-        ctx, violations, _ = run_property(pid, r.get('tier', 'quick'), repo=a.repo)
+        # re-evaluate without touching the evidence / violation files (the replay file itself lives there)
+        ctx, violations, _ = run_property(pid, r.get('tier', 'quick'), repo=a.repo, emit=False)
         want = r['obligation']['key']
         hit = [o for o in violations if o['key'] == want]
         if hit:
+            print('VIOLATION property=%s replay=%s' % (pid, os.path.abspath(a.replay)))
             print('replay: obligation %s still violated: %s' % (want, hit[0]['detail']))
             return 1
         print('replay: obligation %s no longer violated on the current tree' % want)
